@@ -135,6 +135,177 @@ theorem missing_read_fails {α} [NumOps α] (code : α) (n : Expr.Node α) (env 
       Expr.bin rs' f = .error .missing :=
   ⟨Expr.var_missing_errors code n env rs hk hc, fun rs' f h => Expr.bin_strict rs' f .missing (Or.inl h)⟩
 
+/-! ### one name for two kinds of element; a column absent from the data, at id assignment
+(model: `Audit.prepareFaults`, `setIdFaults`, `stagedExpr`, `stagedBio` after `IdManager.prepare`,
+`Variable.set_id_manager`, `Expression.prepare`, `BIOGEME.__init__`) -/
+
+/-- **One name for two kinds of element is refused wherever the two elements sit.**  Two elementary
+expressions of different id classes (parameter to be estimated, fixed parameter, integration
+variable, draws) reachable from the root and bearing the same name are reported by
+`IdManager.prepare`, hence on every entry path, audit skipped or not. -/
+theorem duplicate_name_refused (d : ADag) (hwf : WF d) (hl : LeafWF d) (db : Db) (root v w : Nat)
+    (nv nw : ANode) (hpv : Path d (fun _ => True) root v) (hpw : Path d (fun _ => True) root w)
+    (hv : d[v]? = some nv) (hw : d[w]? = some nw)
+    (hkv : nv.kind = .beta ∨ nv.kind = .betaFixed ∨ nv.kind = .rv ∨ nv.kind = .draws)
+    (hkw : nw.kind = .beta ∨ nw.kind = .betaFixed ∨ nw.kind = .rv ∨ nw.kind = .draws)
+    (hdiff : nv.kind ≠ nw.kind) (hname : nv.name = nw.name) :
+    Fault.duplicateName nv.name ∈ prepareFaults d db root ∧
+    stagedExpr d db root ≠ [] ∧ ∀ skip, stagedBio d db root skip ≠ [] := by
+  have key : Fault.duplicateName nv.name ∈ prepareFaults d db root := by
+    unfold prepareFaults
+    apply List.mem_map_of_mem
+    rw [List.mem_eraseDups, mem_dupsOf]
+    have mv : ∀ k, nv.kind = k → (k = .beta ∨ k = .betaFixed ∨ k = .rv ∨ k = .draws) →
+        0 < ((names d k (root + 1) root).eraseDups).count nv.name := by
+      intro k hk hel
+      apply List.count_pos_iff.mpr
+      rw [List.mem_eraseDups]
+      exact names_complete d hwf hl k (by rcases hel with h | h | h | h <;> simp [h]) root v hpv nv hv hk
+    have mw : ∀ k, nw.kind = k → (k = .beta ∨ k = .betaFixed ∨ k = .rv ∨ k = .draws) →
+        0 < ((names d k (root + 1) root).eraseDups).count nv.name := by
+      intro k hk hel
+      apply List.count_pos_iff.mpr
+      rw [List.mem_eraseDups, hname]
+      exact names_complete d hwf hl k (by rcases hel with h | h | h | h <;> simp [h]) root w hpw nw hw hk
+    simp only [mergedNames, List.count_append]
+    rcases hkv with h1 | h1 | h1 | h1 <;> rcases hkw with h2 | h2 | h2 | h2 <;>
+      first
+      | (exfalso; exact hdiff (h1.trans h2.symm))
+      | (have a := mv _ h1 (by simp); have b := mw _ h2 (by simp); omega)
+  refine ⟨key, ?_, fun skip => ?_⟩
+  · exact firstNonEmpty_ne_nil _ _ (by simp) (List.ne_nil_of_mem key)
+  · exact firstNonEmpty_ne_nil _ _ (by simp) (List.ne_nil_of_mem key)
+
+/-- a parameter, integration variable or draw named as a column of the data, anywhere -/
+theorem name_of_column_refused (d : ADag) (hwf : WF d) (hl : LeafWF d) (db : Db) (root v : Nat)
+    (nv : ANode) (hpv : Path d (fun _ => True) root v) (hv : d[v]? = some nv)
+    (hkv : nv.kind = .beta ∨ nv.kind = .betaFixed ∨ nv.kind = .rv ∨ nv.kind = .draws)
+    (hcol : nv.name ∈ db.cols) :
+    Fault.duplicateName nv.name ∈ prepareFaults d db root := by
+  unfold prepareFaults
+  apply List.mem_map_of_mem
+  rw [List.mem_eraseDups, mem_dupsOf]
+  have mv : ∀ k, nv.kind = k → (k = .beta ∨ k = .betaFixed ∨ k = .rv ∨ k = .draws) →
+      0 < ((names d k (root + 1) root).eraseDups).count nv.name := by
+    intro k hk hel
+    apply List.count_pos_iff.mpr
+    rw [List.mem_eraseDups]
+    exact names_complete d hwf hl k (by rcases hel with h | h | h | h <;> simp [h]) root v hpv nv hv hk
+  have hc : 0 < db.cols.count nv.name := List.count_pos_iff.mpr hcol
+  simp only [mergedNames, List.count_append]
+  rcases hkv with h1 | h1 | h1 | h1 <;> (have a := mv _ h1 (by simp); omega)
+
+/-- **A column absent from the data is refused at id assignment whatever else bears its name**:
+the variable is reported by `Variable.set_id_manager` although a parameter, draw or integration
+variable of the same name is registered; so every entry path refuses, audit skipped or not. -/
+theorem absent_column_refused_at_ids (d : ADag) (hwf : WF d) (hl : LeafWF d) (db : Db) (root v : Nat)
+    (n : ANode) (hp : Path d (fun _ => True) root v) (hv : d[v]? = some n) (hk : n.kind = .var)
+    (hcol : db.cols.contains n.name = false) :
+    Fault.unknownColumn n.name ∈ setIdFaults d db root ∧
+    stagedExpr d db root ≠ [] ∧ ∀ skip, stagedBio d db root skip ≠ [] := by
+  have key : Fault.unknownColumn n.name ∈ setIdFaults d db root := by
+    unfold setIdFaults
+    apply List.mem_map_of_mem
+    rw [List.mem_filter]
+    refine ⟨names_complete d hwf hl .var (by simp) root v hp n hv hk, ?_⟩
+    rw [hcol]; rfl
+  refine ⟨key, ?_, fun skip => ?_⟩
+  · exact firstNonEmpty_ne_nil _ _ (by simp) (List.ne_nil_of_mem key)
+  · exact firstNonEmpty_ne_nil _ _ (by simp) (List.ne_nil_of_mem key)
+
+/-- **No false alarm at id assignment**: a reported duplicate is the name of an element of the
+formula that is also a column or the name of an element of another id class; a reported absent
+column is the name of a variable of the formula that is no column. -/
+theorem ids_sound (d : ADag) (db : Db) (root : Nat) :
+    (∀ name, Fault.unknownColumn name ∈ setIdFaults d db root →
+      db.cols.contains name = false ∧
+      ∃ v n, Path d (fun _ => True) root v ∧ d[v]? = some n ∧ n.kind = .var ∧ n.name = name) ∧
+    ((mergedNames d db root).Nodup → prepareFaults d db root = []) := by
+  constructor
+  · intro name h
+    unfold setIdFaults at h
+    rw [List.mem_map] at h
+    obtain ⟨x, hx, he⟩ := h
+    injection he with he
+    subst he
+    rw [List.mem_filter] at hx
+    exact ⟨by simpa using hx.2, names_sound d .var root x hx.1⟩
+  · intro h
+    unfold prepareFaults
+    rw [dupsOf_nodup _ h]
+    rfl
+
+/-- the stages invent nothing: what an entry path reports is reported by one of its stages -/
+theorem staged_reports_stage_faults (d : ADag) (db : Db) (root : Nat) (x : Fault) :
+    (x ∈ stagedExpr d db root → x ∈ prepareFaults d db root ∨ x ∈ setIdFaults d db root ∨ x ∈ topAuditExpr d db root) ∧
+    (∀ skip, x ∈ stagedBio d db root skip →
+      x ∈ topAuditBio d db root ∨ x ∈ prepareFaults d db root ∨ x ∈ setIdFaults d db root) := by
+  constructor
+  · intro h
+    obtain ⟨l, hl, hx⟩ := firstNonEmpty_mem _ x h
+    simp only [List.mem_cons, List.not_mem_nil, or_false] at hl
+    rcases hl with rfl | rfl | rfl
+    · exact Or.inl hx
+    · exact Or.inr (Or.inl hx)
+    · exact Or.inr (Or.inr hx)
+  · intro skip h
+    obtain ⟨l, hl, hx⟩ := firstNonEmpty_mem _ x h
+    simp only [List.mem_cons, List.not_mem_nil, or_false] at hl
+    rcases hl with rfl | rfl | rfl
+    · cases skip
+      · exact Or.inl (by simpa using hx)
+      · simp at hx
+    · exact Or.inr (Or.inl hx)
+    · exact Or.inr (Or.inr hx)
+
+/-! ### non-numeric, NaN or empty data (model: `Audit.dataAuditNew` = `Database(...)`,
+`dataAuditBio` = the audit repeated by `BIOGEME(...)`, both on the frame held at the time of the call) -/
+
+/-- **Non-numeric, NaN or empty data is refused** by `Database(...)` and again by `BIOGEME(...)`. -/
+theorem data_fault_refused (f : FrameInfo)
+    (h : f.rows = 0 ∨ ∃ c ∈ f.cols, c.numeric = false ∨ c.hasNaN = true) :
+    dataAuditNew f ≠ [] ∧ dataAuditBio f ≠ [] := by
+  have hfa : (∃ c ∈ f.cols, c.numeric = false ∨ c.hasNaN = true) → frameAudit f ≠ [] := by
+    rintro ⟨c, hc, hcn | hcn⟩
+    · apply List.ne_nil_of_mem (a := DataFault.nonNumeric c.name)
+      unfold frameAudit
+      rw [List.mem_append]
+      left
+      exact List.mem_map.mpr ⟨c, List.mem_filter.mpr ⟨hc, by simp [hcn]⟩, rfl⟩
+    · apply List.ne_nil_of_mem (a := DataFault.nan)
+      unfold frameAudit
+      rw [List.mem_append]
+      right
+      have : f.cols.any (·.hasNaN) = true := List.any_eq_true.mpr ⟨c, hc, hcn⟩
+      simp [this]
+  rcases h with h0 | hc
+  · simp [dataAuditNew, dataAuditBio, h0]
+  · have := hfa hc
+    constructor
+    · unfold dataAuditNew
+      split
+      · simp
+      · exact this
+    · unfold dataAuditBio
+      intro h
+      exact this (List.append_eq_nil_iff.mp h).2
+
+/-- **Valid data is never refused.** -/
+theorem data_valid_accepted (f : FrameInfo) (hr : f.rows ≠ 0)
+    (hc : ∀ c ∈ f.cols, c.numeric = true ∧ c.hasNaN = false) :
+    dataAuditNew f = [] ∧ dataAuditBio f = [] := by
+  have h1 : f.cols.filter (fun c => !c.numeric) = [] := by
+    rw [List.filter_eq_nil_iff]
+    intro c hcm
+    simp [(hc c hcm).1]
+  have h2 : f.cols.any (·.hasNaN) = false := by
+    rw [List.any_eq_false]
+    intro c hcm
+    simp [(hc c hcm).2]
+  have hfa : frameAudit f = [] := by simp [frameAudit, h1, h2]
+  have hr' : (f.rows == 0) = false := by simpa using hr
+  simp [dataAuditNew, dataAuditBio, hfa, hr']
+
 /-! ### non-vacuity -/
 
 /-- exp(b * Variable("zzz")) > 0 with `zzz` unknown, under MonteCarlo-free operators -/
@@ -143,5 +314,22 @@ def exDag : ADag :=
     { kind := .op, children := [2] }, { kind := .leaf }, { kind := .op, children := [3, 4] } ]
 
 example : Fault.unknownColumn "zzz" ∈ topAuditExpr exDag { cols := ["x"], panel := false } 5 := by decide
+
+/-- Beta("cost") * Variable("cost") + Variable("x") on data whose column is spelled "COST" -/
+def exCost : ADag :=
+  [ { kind := .beta, name := "cost" }, { kind := .var, name := "cost" }, { kind := .op, children := [0, 1] },
+    { kind := .var, name := "x" }, { kind := .op, children := [2, 3] } ]
+
+example : stagedExpr exCost { cols := ["x", "COST"], panel := false } 4 = [.unknownColumn "cost"] := by decide
+example : stagedBio exCost { cols := ["x", "COST"], panel := false } 4 true = [.unknownColumn "cost"] := by decide
+/-- the same formula when the column exists: one name for a parameter and a variable -/
+example : stagedExpr exCost { cols := ["x", "cost"], panel := false } 4 = [.duplicateName "cost"] := by decide
+/-- MonteCarlo(Beta("s") * bioDraws("s")): hypotheses of `duplicate_name_refused` are satisfiable -/
+def exDup : ADag :=
+  [ { kind := .beta, name := "s" }, { kind := .draws, name := "s" }, { kind := .op, children := [0, 1] },
+    { kind := .monteCarlo, children := [2] } ]
+example : prepareFaults exDup { cols := ["x"], panel := false } 3 = [.duplicateName "s"] := by decide
+example : dataAuditBio { cols := [{ name := "x", numeric := true, hasNaN := true }], rows := 3 } = [.nan] := by decide
+example : dataAuditNew { cols := [{ name := "x", numeric := true, hasNaN := false }], rows := 3 } = [] := by decide
 
 end C12
